@@ -41,7 +41,7 @@ type Result struct {
 	Err string      // non-empty: return this error (together with Val if set)
 	// Odd: a message the public constructors allow but no decoder ever yields:
 	// "nil-array" = redis.NewArrayMessageWithArray(nil); "no-type" = proto.NewMessageWithType(0) with a payload;
-	// "unknown-type" = proto.NewMessageWithType(99); "nil-in-array" = an array message holding a nil element
+	// "unknown-type" = proto.NewMessageWithType(99); "nil-in-array" = an array message holding a nil element; "nil-in-big-array" = the same behind 8 KiB of elements
 	Odd string
 }
 
@@ -171,6 +171,14 @@ func (r *Recorder) record(conn *redis.Conn, method string, pattern *glob.Glob, a
 		msg = proto.NewMessageWithType(proto.MessageType(0)).SetBytes([]byte("x"))
 	case "unknown-type":
 		msg = proto.NewMessageWithType(proto.MessageType(99)).SetBytes([]byte("x"))
+	case "nil-in-big-array":
+		// several KiB of good elements, then one that cannot be serialized
+		arr := proto.NewArray()
+		for i := 0; i < 200; i++ {
+			arr.Append(redis.NewBulkMessage("0123456789012345678901234567890123456789"))
+		}
+		arr.Append(nil)
+		msg = redis.NewArrayMessageWithArray(arr)
 	case "nil-in-array":
 		arr := proto.NewArray()
 		arr.Append(redis.NewBulkMessage("a"))
